@@ -1,17 +1,1406 @@
-//! stub: component `ffi` (to be written)
+//! C18: component `ffi` — every operation is executed through the Rust API and through the C API
+//! (`iceoryx2_ffi_c::iox2_*`, called directly) on services with identical configuration:
+//!
+//!   world r  : service, publisher/notifier and subscriber/listener through the Rust API (reference)
+//!   world c  : everything through the C API
+//!   world rc : service created and published/notified through Rust, opened and received/listened through C
+//!   world cr : service created and published/notified through C, opened and received/listened through Rust
+//!
+//! One op line = one logical call, executed in all four worlds.  Output `r=<..> c=<..> rc=<..> cr=<..>`.
+//! Oracle (`oracle_fail`): the four canonical outcomes are equal, where an error reported by the Rust
+//! API is translated to the C variant the generated table (`lean/Iox2/Gen/ffi_errors.tsv`, written
+//! by extract/ffi_errors.py from the binding's sources) assigns to it.  `fin` drops every handle
+//! and checks that nothing with the case's config prefix is left in the service / node
+//! directories and /dev/shm.  `new names`: every `iox2_*_string` function is called with every
+//! code of its enum and compared with the translated table.
+//!
+//! Only legal call sequences are issued (a panic inside an `extern "C"` function aborts).
 use crate::common::*;
+use iceoryx2::port::listener::Listener;
+use iceoryx2::port::notifier::Notifier;
+use iceoryx2::port::publisher::Publisher;
+use iceoryx2::port::subscriber::Subscriber;
+use iceoryx2::port::update_connections::UpdateConnections;
+use iceoryx2::prelude::*;
+use iceoryx2::sample::Sample;
+use iceoryx2::sample_mut_uninit::SampleMutUninit;
+use iceoryx2_ffi_c::*;
+use std::collections::{BTreeMap, HashMap, HashSet};
+use std::ffi::{c_char, c_int, c_void, CStr, CString};
+use std::fmt::Debug;
+use std::mem::{size_of, MaybeUninit};
+use std::ptr::null_mut;
 
-pub struct FfiComp;
+type S = ipc::Service;
+static CASE_COUNTER: std::sync::atomic::AtomicUsize = std::sync::atomic::AtomicUsize::new(0);
+
+// ---------------------------------------------------------------------------------------------
+// the translated error table
+
+pub struct Table {
+    ok: i32,
+    variants: HashMap<String, Vec<(String, i32, String)>>,
+    string_fn: BTreeMap<String, String>,
+    map: HashMap<(String, String), (String, String)>,
+    unmapped: HashSet<(String, String)>,
+}
+
+fn load_table() -> Table {
+    let path = std::env::var("VERIF_FFI_TABLE").unwrap_or_else(|_| concat!(env!("CARGO_MANIFEST_DIR"), "/../lean/Iox2/Gen/ffi_errors.tsv").to_string());
+    let text = std::fs::read_to_string(&path).unwrap_or_else(|e| {
+        eprintln!("ffi: cannot read the translated error table {path}: {e} (run extract/ffi_errors.py)");
+        std::process::exit(3)
+    });
+    let mut t = Table { ok: 0, variants: HashMap::new(), string_fn: BTreeMap::new(), map: HashMap::new(), unmapped: HashSet::new() };
+    for l in text.lines() {
+        let f: Vec<&str> = l.split('\t').collect();
+        match f[0] {
+            "OK" => t.ok = f[1].parse().unwrap(),
+            "E" => {
+                t.variants.entry(f[1].to_string()).or_default();
+                if f[2] != "-" {
+                    t.string_fn.insert(f[1].to_string(), f[2].to_string());
+                }
+            }
+            "V" => t.variants.entry(f[1].to_string()).or_default().push((f[2].to_string(), f[3].parse().unwrap(), f.get(4).unwrap_or(&"").to_string())),
+            "M" => {
+                t.map.insert((f[2].to_string(), f[3].to_string()), (f[1].to_string(), f[4].to_string()));
+            }
+            "U" => {
+                t.unmapped.insert((f[2].to_string(), f[3].to_string()));
+            }
+            _ => {}
+        }
+    }
+    t
+}
+
+thread_local! {
+    static TABLE: Table = load_table();
+}
+
+/// outcome of one call on one side
+#[derive(Clone, Debug)]
+pub enum Out {
+    Ok(String),
+    /// Rust API error: enum name, Debug text of the value
+    R(&'static str, String),
+    /// C API error: enum the function is documented to return, code
+    C(&'static str, i32),
+    /// the harness could not perform the call (label unknown …): same in every world by construction
+    Skip(&'static str),
+}
+
+/// `A(B(C))` -> [`A(B(C))`, `A(B(_))`, `A(_)`]: candidates for the flattened variant label of the table
+fn flat_candidates(dbg: &str) -> Vec<String> {
+    let mut v = vec![dbg.to_string()];
+    let bytes: Vec<char> = dbg.chars().collect();
+    let maxdepth = {
+        let (mut d, mut m) = (0, 0);
+        for c in &bytes {
+            if *c == '(' || *c == '{' { d += 1; m = m.max(d) }
+            if *c == ')' || *c == '}' { d -= 1 }
+        }
+        m
+    };
+    for depth in (1..=maxdepth).rev() {
+        // replace the content of the first group at `depth` by `_`, drop everything nested deeper
+        let mut out = String::new();
+        let mut d = 0;
+        for c in &bytes {
+            if *c == '(' || *c == '{' {
+                d += 1;
+                if d <= depth { out.push('(') }
+                if d == depth { out.push('_') }
+                continue;
+            }
+            if *c == ')' || *c == '}' {
+                if d <= depth { out.push(')') }
+                d -= 1;
+                continue;
+            }
+            if d < depth { out.push(*c) }
+        }
+        v.push(out.replace(" (", "("));
+    }
+    v
+}
+
+/// (text shown, canonical form compared across worlds)
+fn canon(o: &Out) -> (String, String) {
+    TABLE.with(|t| match o {
+        Out::Ok(s) => (s.clone(), s.clone()),
+        Out::Skip(s) => (s.to_string(), s.to_string()),
+        Out::R(en, dbg) => {
+            for cand in flat_candidates(dbg) {
+                if let Some((ce, cv)) = t.map.get(&(en.to_string(), cand.clone())) {
+                    return (format!("err:{en}::{cand}"), format!("err:{ce}::{cv}"));
+                }
+                if t.unmapped.contains(&(en.to_string(), cand.clone())) {
+                    return (format!("err:{en}::{cand}"), format!("err:no-C-code:{en}::{cand}"));
+                }
+            }
+            (format!("err:{en}::{dbg}"), format!("err:not-in-table:{en}::{dbg}"))
+        }
+        Out::C(en, code) => {
+            if *code == t.ok {
+                return (format!("err:{en}::#{code}=IOX2_OK"), format!("err:{en}::#{code}=IOX2_OK"));
+            }
+            match t.variants.get(*en).and_then(|vs| vs.iter().find(|v| v.1 == *code)) {
+                Some(v) => (format!("err:{}({code})", v.0), format!("err:{en}::{}", v.0)),
+                None => (format!("err:{en}::#{code}"), format!("err:{en}::#{code}")),
+            }
+        }
+    })
+}
+
+// ---------------------------------------------------------------------------------------------
+// payload types of the Rust world (the C world gets the same type details explicitly)
+
+#[derive(Clone, Copy, Debug)]
+#[repr(C, align(16))]
+pub struct A16([u8; 16]);
+unsafe impl ZeroCopySend for A16 {
+    unsafe fn type_name() -> &'static str { "A16" }
+}
+#[derive(Clone, Copy, Debug)]
+#[repr(C, align(64))]
+pub struct A64([u8; 128]);
+unsafe impl ZeroCopySend for A64 {
+    unsafe fn type_name() -> &'static str { "verif::A64" }
+}
+#[derive(Clone, Copy, Debug)]
+#[repr(C)]
+pub struct Odd([u16; 7]);
+unsafe impl ZeroCopySend for Odd {
+    unsafe fn type_name() -> &'static str { "Odd" }
+}
+
+pub trait Pod: ZeroCopySend + Debug + Copy + 'static {}
+impl<T: ZeroCopySend + Debug + Copy + 'static> Pod for T {}
+
+pub trait Hdr: ZeroCopySend + Debug + Copy + Default + 'static {
+    fn from_u64(v: u64) -> Self;
+    fn show(&self) -> String;
+}
+impl Hdr for () {
+    fn from_u64(_: u64) -> Self {}
+    fn show(&self) -> String { String::new() }
+}
+impl Hdr for u64 {
+    fn from_u64(v: u64) -> Self { v }
+    fn show(&self) -> String { hex(&self.to_le_bytes()) }
+}
+impl Hdr for A16 {
+    fn from_u64(v: u64) -> Self { let mut a = [0u8; 16]; a[..8].copy_from_slice(&v.to_le_bytes()); a[8..].copy_from_slice(&(!v).to_le_bytes()); A16(a) }
+    fn show(&self) -> String { hex(&self.0) }
+}
+impl Default for A16 {
+    fn default() -> Self { A16([0; 16]) }
+}
+
+fn hex(b: &[u8]) -> String {
+    b.iter().map(|x| format!("{x:02x}")).collect()
+}
+fn pattern(seed: u64, len: usize) -> Vec<u8> {
+    (0..len).map(|i| (seed.wrapping_mul(31).wrapping_add(i as u64 * 7 + 1) & 0xff) as u8).collect()
+}
+fn show_bytes(b: &[u8]) -> String {
+    let mut h: u64 = 0xcbf29ce484222325;
+    for x in b {
+        h ^= *x as u64;
+        h = h.wrapping_mul(0x100000001b3);
+    }
+    let head: String = b.iter().take(12).map(|x| format!("{x:02x}")).collect();
+    format!("{}B:{head}{}#{:08x}", b.len(), if b.len() > 12 { ".." } else { "" }, h as u32)
+}
+
+#[derive(Clone, Debug)]
+pub struct TypeInfo {
+    dynamic: bool,
+    name: String,
+    size: usize,
+    align: usize,
+}
+#[derive(Clone, Debug)]
+pub struct PsCfg {
+    slice: bool,
+    ty: usize,
+    hdr: usize,
+    max_pubs: usize,
+    max_subs: usize,
+    buf: usize,
+    hist: usize,
+    borrow: usize,
+    overflow: bool,
+}
+
+/// what one participant side of a publish-subscribe world can do
+pub trait PsSide {
+    fn cpub(&mut self, p: usize, max_loans: usize, max_len: usize) -> Out;
+    fn dpub(&mut self, p: usize) -> Out;
+    fn csub(&mut self, s: usize, buf: Option<usize>) -> Out;
+    fn dsub(&mut self, s: usize) -> Out;
+    fn loan(&mut self, p: usize, l: usize, n: usize) -> Out;
+    fn send(&mut self, p: usize, l: usize, seed: u64) -> Out;
+    fn dloan(&mut self, p: usize, l: usize) -> Out;
+    fn scopy(&mut self, p: usize, seed: u64, n: usize) -> Out;
+    fn recv(&mut self, s: usize) -> Out;
+    fn dsample(&mut self, s: usize, k: usize) -> Out;
+    fn has(&mut self, s: usize) -> Out;
+    fn upd(&mut self, p: usize) -> Out;
+    fn counts(&mut self) -> Out;
+    fn details(&self) -> (TypeInfo, TypeInfo);
+    /// drops every handle of this side (ports, samples, service, node)
+    fn fin(&mut self);
+}
+
+// ---------------------------------------------------------------------------------------------
+// Rust side
+
+fn rust_config(prefix: &str) -> iceoryx2::config::Config {
+    let mut config = iceoryx2::config::Config::global_config().clone();
+    config.global.prefix = iceoryx2_bb_system_types::file_name::FileName::new(prefix.as_bytes()).unwrap();
+    config
+}
+fn rust_node(prefix: &str) -> Result<Node<S>, Out> {
+    NodeBuilder::new().config(&rust_config(prefix)).create::<S>().map_err(|e| Out::R("NodeCreationFailure", format!("{e:?}")))
+}
+
+macro_rules! r_ps_side {
+    ($name:ident, $pay:ty, $uninit:ty, $dynamic:tt,
+     loan = |$lp:ident, $ln:ident| $loan:expr,
+     bytes_mut = |$bm:ident| $bytes_mut:expr,
+     bytes = |$br:ident| $bytes:expr) => {
+        pub struct $name<T: Pod, H: Hdr> {
+            node: Option<Node<S>>,
+            svc: Option<iceoryx2::service::port_factory::publish_subscribe::PortFactory<S, $pay, H>>,
+            pubs: HashMap<usize, Publisher<S, $pay, H>>,
+            subs: HashMap<usize, Subscriber<S, $pay, H>>,
+            loans: HashMap<(usize, usize), SampleMutUninit<S, $uninit, H>>,
+            samples: HashMap<usize, Vec<Sample<S, $pay, H>>>,
+            origins: Vec<u128>,
+            hdr: bool,
+        }
+        impl<T: Pod, H: Hdr> $name<T, H> {
+            fn make(prefix: &str, name: &str, cfg: &PsCfg, create: bool) -> Result<Box<dyn PsSide>, Out> {
+                let node = rust_node(prefix)?;
+                let sn = ServiceName::new(name).unwrap();
+                let b = node.service_builder(&sn).publish_subscribe::<$pay>().user_header::<H>();
+                let svc = if create {
+                    b.max_publishers(cfg.max_pubs)
+                        .max_subscribers(cfg.max_subs)
+                        .subscriber_max_buffer_size(cfg.buf)
+                        .history_size(cfg.hist)
+                        .subscriber_max_borrowed_samples(cfg.borrow)
+                        .enable_safe_overflow(cfg.overflow)
+                        .create()
+                        .map_err(|e| Out::R("PublishSubscribeCreateError", format!("{e:?}")))?
+                } else {
+                    b.open().map_err(|e| Out::R("PublishSubscribeOpenError", format!("{e:?}")))?
+                };
+                Ok(Box::new($name::<T, H> { node: Some(node), svc: Some(svc), pubs: HashMap::new(), subs: HashMap::new(), loans: HashMap::new(), samples: HashMap::new(), origins: vec![], hdr: cfg.hdr != 0 }))
+            }
+        }
+        impl<T: Pod, H: Hdr> PsSide for $name<T, H> {
+            fn cpub(&mut self, p: usize, max_loans: usize, max_len: usize) -> Out {
+                if self.pubs.contains_key(&p) { return Out::Skip("dup") }
+                let b = self.svc.as_ref().unwrap().publisher_builder().max_loaned_samples(max_loans).backpressure_strategy(BackpressureStrategy::DiscardData);
+                let r = r_ps_side!(@create $dynamic, b, max_len);
+                match r {
+                    Ok(x) => { self.pubs.insert(p, x); Out::Ok("ok".into()) }
+                    Err(e) => Out::R("PublisherCreateError", format!("{e:?}")),
+                }
+            }
+            fn dpub(&mut self, p: usize) -> Out {
+                // loans of the publisher go first (the C handles must not outlive … nothing: both APIs allow any order; keep both worlds alike)
+                match self.pubs.remove(&p) { Some(x) => { drop(x); Out::Ok("ok".into()) } None => Out::Skip("none") }
+            }
+            fn csub(&mut self, s: usize, buf: Option<usize>) -> Out {
+                if self.subs.contains_key(&s) { return Out::Skip("dup") }
+                let mut b = self.svc.as_ref().unwrap().subscriber_builder();
+                if let Some(n) = buf { b = b.buffer_size(n) }
+                match b.create() {
+                    Ok(x) => { self.subs.insert(s, x); self.samples.entry(s).or_default(); Out::Ok("ok".into()) }
+                    Err(e) => Out::R("SubscriberCreateError", format!("{e:?}")),
+                }
+            }
+            fn dsub(&mut self, s: usize) -> Out {
+                match self.subs.remove(&s) { Some(x) => { drop(x); Out::Ok("ok".into()) } None => Out::Skip("none") }
+            }
+            fn loan(&mut self, p: usize, l: usize, n: usize) -> Out {
+                if self.loans.contains_key(&(p, l)) { return Out::Skip("dup") }
+                let Some($lp) = self.pubs.get(&p) else { return Out::Skip("none") };
+                let $ln = n;
+                match $loan {
+                    Ok(x) => { self.loans.insert((p, l), x); Out::Ok("ok".into()) }
+                    Err(e) => Out::R("LoanError", format!("{e:?}")),
+                }
+            }
+            fn send(&mut self, p: usize, l: usize, seed: u64) -> Out {
+                let Some(mut $bm) = self.loans.remove(&(p, l)) else { return Out::Skip("none") };
+                if self.hdr { *$bm.user_header_mut() = H::from_u64(seed ^ 0x5555) }
+                let (ptr, len): (*mut u8, usize) = $bytes_mut;
+                let pat = pattern(seed, len);
+                unsafe { std::ptr::copy_nonoverlapping(pat.as_ptr(), ptr, len) };
+                match unsafe { $bm.assume_init() }.send() {
+                    Ok(k) => Out::Ok(format!("ok:{k}")),
+                    Err(e) => Out::R("SendError", format!("{e:?}")),
+                }
+            }
+            fn dloan(&mut self, p: usize, l: usize) -> Out {
+                match self.loans.remove(&(p, l)) { Some(x) => { drop(x); Out::Ok("ok".into()) } None => Out::Skip("none") }
+            }
+            fn scopy(&mut self, p: usize, seed: u64, n: usize) -> Out {
+                let Some($lp) = self.pubs.get(&p) else { return Out::Skip("none") };
+                r_ps_side!(@scopy $dynamic, $lp, seed, n, T, H, self.hdr)
+            }
+            fn recv(&mut self, s: usize) -> Out {
+                let Some(sub) = self.subs.get(&s) else { return Out::Skip("none") };
+                match sub.receive() {
+                    Ok(Some($br)) => {
+                        let o = $br.origin().value();
+                        let k = match self.origins.iter().position(|x| *x == o) { Some(k) => k, None => { self.origins.push(o); self.origins.len() - 1 } };
+                        let (ptr, len, n): (*const u8, usize, usize) = $bytes;
+                        let b = unsafe { std::slice::from_raw_parts(ptr, len) }.to_vec();
+                        let hn = $br.header().number_of_elements();
+                        let uh = $br.user_header().show();
+                        self.samples.get_mut(&s).unwrap().push($br);
+                        Out::Ok(format!("some:o{k}:n{n}/{hn}:h{uh}:{}", show_bytes(&b)))
+                    }
+                    Ok(None) => Out::Ok("none".into()),
+                    Err(e) => Out::R("ReceiveError", format!("{e:?}")),
+                }
+            }
+            fn dsample(&mut self, s: usize, k: usize) -> Out {
+                match self.samples.get_mut(&s) { Some(v) if k < v.len() => { drop(v.remove(k)); Out::Ok("ok".into()) } _ => Out::Skip("none") }
+            }
+            fn has(&mut self, s: usize) -> Out {
+                let Some(sub) = self.subs.get(&s) else { return Out::Skip("none") };
+                match sub.has_samples() { Ok(b) => Out::Ok(format!("{b}")), Err(e) => Out::R("ConnectionFailure", format!("{e:?}")) }
+            }
+            fn upd(&mut self, p: usize) -> Out {
+                let Some(x) = self.pubs.get(&p) else { return Out::Skip("none") };
+                match x.update_connections() { Ok(()) => Out::Ok("ok".into()), Err(e) => Out::R("ConnectionFailure", format!("{e:?}")) }
+            }
+            fn counts(&mut self) -> Out {
+                let d = self.svc.as_ref().unwrap().dynamic_config();
+                Out::Ok(format!("p{}s{}", d.number_of_publishers(), d.number_of_subscribers()))
+            }
+            fn details(&self) -> (TypeInfo, TypeInfo) {
+                let m = self.svc.as_ref().unwrap().static_config().message_type_details();
+                let f = |d: &iceoryx2::service::static_config::message_type_details::TypeDetail| TypeInfo {
+                    dynamic: d.variant() == iceoryx2::service::static_config::message_type_details::TypeVariant::Dynamic,
+                    name: format!("{}", d.type_name()), size: d.size(), align: d.alignment() };
+                (f(&m.payload), f(&m.user_header))
+            }
+            fn fin(&mut self) {
+                self.samples.clear();
+                self.loans.clear();
+                self.pubs.clear();
+                self.subs.clear();
+                self.svc = None;
+                self.node = None;
+            }
+        }
+    };
+    (@create false, $b:ident, $max_len:ident) => { $b.create() };
+    (@create true, $b:ident, $max_len:ident) => { $b.initial_max_slice_len($max_len).allocation_strategy(AllocationStrategy::Static).create() };
+    (@scopy false, $p:ident, $seed:ident, $n:ident, $T:ident, $H:ident, $hdr:expr) => {{
+        let pat = pattern($seed, size_of::<$T>());
+        let mut v = MaybeUninit::<$T>::uninit();
+        unsafe { std::ptr::copy_nonoverlapping(pat.as_ptr(), v.as_mut_ptr() as *mut u8, pat.len()) };
+        let _ = $n;
+        match $p.send_copy(unsafe { v.assume_init() }) { Ok(k) => Out::Ok(format!("ok:{k}")), Err(e) => Out::R("SendError", format!("{e:?}")) }
+    }};
+    (@scopy true, $p:ident, $seed:ident, $n:ident, $T:ident, $H:ident, $hdr:expr) => {{
+        // the Rust API has no send_slice_copy: loan + copy + send, a failed loan reported as SendError::LoanError
+        match $p.loan_slice_uninit($n) {
+            Err(e) => Out::R("SendError", format!("LoanError({e:?})")),
+            Ok(mut s) => {
+                let sl = s.payload_mut();
+                let len = sl.len() * size_of::<$T>();
+                let pat = pattern($seed, len);
+                unsafe { std::ptr::copy_nonoverlapping(pat.as_ptr(), sl.as_mut_ptr() as *mut u8, len) };
+                match unsafe { s.assume_init() }.send() { Ok(k) => Out::Ok(format!("ok:{k}")), Err(e) => Out::R("SendError", format!("{e:?}")) }
+            }
+        }
+    }};
+}
+
+r_ps_side!(RFixed, T, MaybeUninit<T>, false,
+    loan = |p, n| { let _ = n; p.loan_uninit() },
+    bytes_mut = |s| (s.payload_mut().as_mut_ptr() as *mut u8, size_of::<T>()),
+    bytes = |r| (r.payload() as *const T as *const u8, size_of::<T>(), 1));
+r_ps_side!(RSlice, [T], [MaybeUninit<T>], true,
+    loan = |p, n| p.loan_slice_uninit(n),
+    bytes_mut = |s| { let sl = s.payload_mut(); (sl.as_mut_ptr() as *mut u8, sl.len() * size_of::<T>()) },
+    bytes = |r| { let sl = r.payload(); (sl.as_ptr() as *const u8, sl.len() * size_of::<T>(), sl.len()) });
+
+pub const N_TYPES: usize = 8;
+pub const N_HDRS: usize = 3;
+fn mk_r_ps(prefix: &str, name: &str, cfg: &PsCfg, create: bool) -> Result<Box<dyn PsSide>, Out> {
+    macro_rules! with_hdr {
+        ($t:ty) => {
+            match (cfg.slice, cfg.hdr) {
+                (false, 0) => RFixed::<$t, ()>::make(prefix, name, cfg, create),
+                (false, 1) => RFixed::<$t, u64>::make(prefix, name, cfg, create),
+                (false, _) => RFixed::<$t, A16>::make(prefix, name, cfg, create),
+                (true, 0) => RSlice::<$t, ()>::make(prefix, name, cfg, create),
+                (true, 1) => RSlice::<$t, u64>::make(prefix, name, cfg, create),
+                (true, _) => RSlice::<$t, A16>::make(prefix, name, cfg, create),
+            }
+        };
+    }
+    match cfg.ty {
+        0 => with_hdr!(u8),
+        1 => with_hdr!(u16),
+        2 => with_hdr!(u64),
+        3 => with_hdr!(u128),
+        4 => with_hdr!([u8; 3]),
+        5 => with_hdr!(Odd),
+        6 => with_hdr!(A16),
+        _ => with_hdr!(A64),
+    }
+}
+
+// ---------------------------------------------------------------------------------------------
+// C side
+
+struct CNode {
+    node: iox2_node_h,
+}
+impl CNode {
+    fn new(prefix: &str) -> Result<CNode, Out> {
+        unsafe {
+            let mut cfg: iox2_config_h = null_mut();
+            iox2_config_from_ptr(iox2_config_global_config(), null_mut(), &mut cfg);
+            let p = CString::new(prefix).unwrap();
+            let rc = iox2_config_global_set_prefix(&cfg, p.as_ptr());
+            if rc != IOX2_OK {
+                iox2_config_drop(cfg);
+                return Err(Out::C("iox2_semantic_string_error_e", rc));
+            }
+            let nb = iox2_node_builder_new(null_mut());
+            iox2_node_builder_set_config(&nb, &cfg);
+            let mut node: iox2_node_h = null_mut();
+            let rc = iox2_node_builder_create(nb, null_mut(), iox2_service_type_e::IPC, &mut node);
+            iox2_config_drop(cfg);
+            if rc != IOX2_OK {
+                return Err(Out::C("iox2_node_creation_failure_e", rc));
+            }
+            Ok(CNode { node })
+        }
+    }
+    unsafe fn service_builder(&self, name: &str) -> iox2_service_builder_h {
+        unsafe {
+            let mut sn: iox2_service_name_h = null_mut();
+            let rc = iox2_service_name_new(null_mut(), name.as_ptr() as *const c_char, name.len(), &mut sn);
+            assert!(rc == IOX2_OK);
+            let b = iox2_node_service_builder(&self.node, null_mut(), iox2_cast_service_name_ptr(sn));
+            iox2_service_name_drop(sn);
+            b
+        }
+    }
+    fn fin(&mut self) {
+        if !self.node.is_null() {
+            unsafe { iox2_node_drop(self.node) };
+            self.node = null_mut();
+        }
+    }
+}
+
+pub struct CPs {
+    node: CNode,
+    svc: iox2_port_factory_pub_sub_h,
+    pubs: HashMap<usize, iox2_publisher_h>,
+    subs: HashMap<usize, iox2_subscriber_h>,
+    loans: HashMap<(usize, usize), iox2_sample_mut_h>,
+    samples: HashMap<usize, Vec<iox2_sample_h>>,
+    origins: Vec<iox2_unique_publisher_id_h>,
+    pay: TypeInfo,
+    uh: TypeInfo,
+    hdr: usize,
+}
+impl CPs {
+    fn make(prefix: &str, name: &str, cfg: &PsCfg, create: bool, pay: &TypeInfo, uh: &TypeInfo) -> Result<Box<dyn PsSide>, Out> {
+        let mut node = CNode::new(prefix)?;
+        unsafe {
+            let b = iox2_service_builder_pub_sub(node.service_builder(name));
+            let variant = |d: bool| if d { iox2_type_variant_e::DYNAMIC } else { iox2_type_variant_e::FIXED_SIZE };
+            let rc = iox2_service_builder_pub_sub_set_payload_type_details(&b, variant(pay.dynamic), pay.name.as_ptr() as *const c_char, pay.name.len(), pay.size, pay.align);
+            assert!(rc == IOX2_OK, "set_payload_type_details {rc}");
+            let rc = iox2_service_builder_pub_sub_set_user_header_type_details(&b, variant(uh.dynamic), uh.name.as_ptr() as *const c_char, uh.name.len(), uh.size, uh.align);
+            assert!(rc == IOX2_OK, "set_user_header_type_details {rc}");
+            let mut svc: iox2_port_factory_pub_sub_h = null_mut();
+            let rc = if create {
+                iox2_service_builder_pub_sub_set_max_publishers(&b, cfg.max_pubs);
+                iox2_service_builder_pub_sub_set_max_subscribers(&b, cfg.max_subs);
+                iox2_service_builder_pub_sub_set_subscriber_max_buffer_size(&b, cfg.buf);
+                iox2_service_builder_pub_sub_set_history_size(&b, cfg.hist);
+                iox2_service_builder_pub_sub_set_subscriber_max_borrowed_samples(&b, cfg.borrow);
+                iox2_service_builder_pub_sub_set_enable_safe_overflow(&b, cfg.overflow);
+                iox2_service_builder_pub_sub_create(b, null_mut(), &mut svc)
+            } else {
+                iox2_service_builder_pub_sub_open(b, null_mut(), &mut svc)
+            };
+            if rc != IOX2_OK {
+                node.fin();
+                return Err(Out::C("iox2_pub_sub_open_or_create_error_e", rc));
+            }
+            Ok(Box::new(CPs { node, svc, pubs: HashMap::new(), subs: HashMap::new(), loans: HashMap::new(), samples: HashMap::new(), origins: vec![], pay: pay.clone(), uh: uh.clone(), hdr: cfg.hdr }))
+        }
+    }
+    unsafe fn write_hdr(&self, h: iox2_sample_mut_h, seed: u64) {
+        if self.hdr == 0 { return }
+        unsafe {
+            let mut p: *mut c_void = null_mut();
+            iox2_sample_mut_user_header_mut(&h, &mut p);
+            let v = seed ^ 0x5555;
+            if self.hdr == 1 {
+                std::ptr::copy_nonoverlapping(v.to_le_bytes().as_ptr(), p as *mut u8, 8);
+            } else {
+                let a = <A16 as Hdr>::from_u64(v);
+                std::ptr::copy_nonoverlapping(a.0.as_ptr(), p as *mut u8, 16);
+            }
+        }
+    }
+}
+impl PsSide for CPs {
+    fn cpub(&mut self, p: usize, max_loans: usize, max_len: usize) -> Out {
+        if self.pubs.contains_key(&p) { return Out::Skip("dup") }
+        unsafe {
+            let b = iox2_port_factory_pub_sub_publisher_builder(&self.svc, null_mut());
+            iox2_port_factory_publisher_builder_set_max_loaned_samples(&b, max_loans);
+            iox2_port_factory_publisher_builder_backpressure_strategy(&b, iox2_backpressure_strategy_e::DISCARD_DATA);
+            if self.pay.dynamic {
+                iox2_port_factory_publisher_builder_set_initial_max_slice_len(&b, max_len);
+                iox2_port_factory_publisher_builder_set_allocation_strategy(&b, iox2_allocation_strategy_e::STATIC);
+            }
+            let mut h: iox2_publisher_h = null_mut();
+            let rc = iox2_port_factory_publisher_builder_create(b, null_mut(), &mut h);
+            if rc != IOX2_OK { return Out::C("iox2_publisher_create_error_e", rc) }
+            self.pubs.insert(p, h);
+            Out::Ok("ok".into())
+        }
+    }
+    fn dpub(&mut self, p: usize) -> Out {
+        match self.pubs.remove(&p) { Some(h) => { unsafe { iox2_publisher_drop(h) }; Out::Ok("ok".into()) } None => Out::Skip("none") }
+    }
+    fn csub(&mut self, s: usize, buf: Option<usize>) -> Out {
+        if self.subs.contains_key(&s) { return Out::Skip("dup") }
+        unsafe {
+            let b = iox2_port_factory_pub_sub_subscriber_builder(&self.svc, null_mut());
+            if let Some(n) = buf { iox2_port_factory_subscriber_builder_set_buffer_size(&b, n) }
+            let mut h: iox2_subscriber_h = null_mut();
+            let rc = iox2_port_factory_subscriber_builder_create(b, null_mut(), &mut h);
+            if rc != IOX2_OK { return Out::C("iox2_subscriber_create_error_e", rc) }
+            self.subs.insert(s, h);
+            self.samples.entry(s).or_default();
+            Out::Ok("ok".into())
+        }
+    }
+    fn dsub(&mut self, s: usize) -> Out {
+        match self.subs.remove(&s) { Some(h) => { unsafe { iox2_subscriber_drop(h) }; Out::Ok("ok".into()) } None => Out::Skip("none") }
+    }
+    fn loan(&mut self, p: usize, l: usize, n: usize) -> Out {
+        if self.loans.contains_key(&(p, l)) { return Out::Skip("dup") }
+        let Some(h) = self.pubs.get(&p) else { return Out::Skip("none") };
+        let n = if self.pay.dynamic { n } else { 1 };
+        unsafe {
+            let mut s: iox2_sample_mut_h = null_mut();
+            let rc = iox2_publisher_loan_slice_uninit(h, null_mut(), &mut s, n);
+            if rc != IOX2_OK { return Out::C("iox2_loan_error_e", rc) }
+            self.loans.insert((p, l), s);
+            Out::Ok("ok".into())
+        }
+    }
+    fn send(&mut self, p: usize, l: usize, seed: u64) -> Out {
+        let Some(h) = self.loans.remove(&(p, l)) else { return Out::Skip("none") };
+        unsafe {
+            self.write_hdr(h, seed);
+            let mut ptr: *mut c_void = null_mut();
+            let mut n: usize = 0;
+            iox2_sample_mut_payload_mut(&h, &mut ptr, &mut n);
+            let len = n * self.pay.size;
+            let pat = pattern(seed, len);
+            std::ptr::copy_nonoverlapping(pat.as_ptr(), ptr as *mut u8, len);
+            let mut k: usize = 0;
+            let rc = iox2_sample_mut_send(h, &mut k);
+            if rc != IOX2_OK { return Out::C("iox2_send_error_e", rc) }
+            Out::Ok(format!("ok:{k}"))
+        }
+    }
+    fn dloan(&mut self, p: usize, l: usize) -> Out {
+        match self.loans.remove(&(p, l)) { Some(h) => { unsafe { iox2_sample_mut_drop(h) }; Out::Ok("ok".into()) } None => Out::Skip("none") }
+    }
+    fn scopy(&mut self, p: usize, seed: u64, n: usize) -> Out {
+        let Some(h) = self.pubs.get(&p) else { return Out::Skip("none") };
+        unsafe {
+            let mut k: usize = 0;
+            let rc = if self.pay.dynamic {
+                let pat = pattern(seed, n * self.pay.size);
+                // memory with the alignment of the element type is not required for a memcpy source
+                iox2_publisher_send_slice_copy(h, if pat.is_empty() { std::ptr::NonNull::<u8>::dangling().as_ptr() as *const c_void } else { pat.as_ptr() as *const c_void }, self.pay.size, n, &mut k)
+            } else {
+                let pat = pattern(seed, self.pay.size);
+                iox2_publisher_send_copy(h, pat.as_ptr() as *const c_void, self.pay.size, &mut k)
+            };
+            if rc != IOX2_OK { return Out::C("iox2_send_error_e", rc) }
+            Out::Ok(format!("ok:{k}"))
+        }
+    }
+    fn recv(&mut self, s: usize) -> Out {
+        let Some(h) = self.subs.get(&s) else { return Out::Skip("none") };
+        unsafe {
+            let mut sample: iox2_sample_h = null_mut();
+            let rc = iox2_subscriber_receive(h, null_mut(), &mut sample);
+            if rc != IOX2_OK { return Out::C("iox2_receive_error_e", rc) }
+            if sample.is_null() { return Out::Ok("none".into()) }
+            let mut ptr: *const c_void = std::ptr::null();
+            let mut n: usize = 0;
+            iox2_sample_payload(&sample, &mut ptr, &mut n);
+            let nbytes = iox2_sample_payload_number_of_bytes(&sample);
+            if nbytes != n * self.pay.size {
+                oracle_fail(format!("C: payload_number_of_bytes {nbytes} != elements {n} * size {}", self.pay.size));
+            }
+            let b = std::slice::from_raw_parts(ptr as *const u8, n * self.pay.size).to_vec();
+            if (ptr as usize) % self.pay.align != 0 {
+                oracle_fail(format!("C: payload pointer not aligned to {}", self.pay.align));
+            }
+            let mut hh: iox2_publish_subscribe_header_h = null_mut();
+            iox2_sample_header(&sample, null_mut(), &mut hh);
+            let hn = iox2_publish_subscribe_header_number_of_elements(&hh);
+            let mut id: iox2_unique_publisher_id_h = null_mut();
+            iox2_publish_subscribe_header_publisher_id(&hh, null_mut(), &mut id);
+            iox2_publish_subscribe_header_drop(hh);
+            let k = match self.origins.iter().position(|x| iox2_unique_publisher_id_eq(x, &id)) {
+                Some(k) => { iox2_unique_publisher_id_drop(id); k }
+                None => { self.origins.push(id); self.origins.len() - 1 }
+            };
+            let uh = if self.hdr == 0 { String::new() } else {
+                let mut p: *const c_void = std::ptr::null();
+                iox2_sample_user_header(&sample, &mut p);
+                if (p as usize) % self.uh.align != 0 { oracle_fail(format!("C: user header pointer not aligned to {}", self.uh.align)) }
+                hex(std::slice::from_raw_parts(p as *const u8, self.uh.size))
+            };
+            self.samples.get_mut(&s).unwrap().push(sample);
+            Out::Ok(format!("some:o{k}:n{n}/{hn}:h{uh}:{}", show_bytes(&b)))
+        }
+    }
+    fn dsample(&mut self, s: usize, k: usize) -> Out {
+        match self.samples.get_mut(&s) { Some(v) if k < v.len() => { let h = v.remove(k); unsafe { iox2_sample_drop(h) }; Out::Ok("ok".into()) } _ => Out::Skip("none") }
+    }
+    fn has(&mut self, s: usize) -> Out {
+        let Some(h) = self.subs.get(&s) else { return Out::Skip("none") };
+        unsafe {
+            let mut b = false;
+            let rc = iox2_subscriber_has_samples(h, &mut b);
+            if rc != IOX2_OK { return Out::C("iox2_connection_failure_e", rc) }
+            Out::Ok(format!("{b}"))
+        }
+    }
+    fn upd(&mut self, p: usize) -> Out {
+        let Some(h) = self.pubs.get(&p) else { return Out::Skip("none") };
+        let rc = unsafe { iox2_publisher_update_connections(h) };
+        if rc != IOX2_OK { return Out::C("iox2_connection_failure_e", rc) }
+        Out::Ok("ok".into())
+    }
+    fn counts(&mut self) -> Out {
+        unsafe {
+            Out::Ok(format!("p{}s{}", iox2_port_factory_pub_sub_dynamic_config_number_of_publishers(&self.svc), iox2_port_factory_pub_sub_dynamic_config_number_of_subscribers(&self.svc)))
+        }
+    }
+    fn details(&self) -> (TypeInfo, TypeInfo) {
+        (self.pay.clone(), self.uh.clone())
+    }
+    fn fin(&mut self) {
+        unsafe {
+            for (_, v) in self.samples.drain() { for h in v { iox2_sample_drop(h) } }
+            for (_, h) in self.loans.drain() { iox2_sample_mut_drop(h) }
+            for h in self.origins.drain(..) { iox2_unique_publisher_id_drop(h) }
+            for (_, h) in self.pubs.drain() { iox2_publisher_drop(h) }
+            for (_, h) in self.subs.drain() { iox2_subscriber_drop(h) }
+            if !self.svc.is_null() { iox2_port_factory_pub_sub_drop(self.svc); self.svc = null_mut() }
+        }
+        self.node.fin();
+    }
+}
+
+// ---------------------------------------------------------------------------------------------
+// events
+
+pub trait EvSide {
+    fn cnot(&mut self, n: usize, default_id: Option<usize>) -> Out;
+    fn dnot(&mut self, n: usize) -> Out;
+    fn clis(&mut self, l: usize) -> Out;
+    fn dlis(&mut self, l: usize) -> Out;
+    fn notify(&mut self, n: usize, id: Option<usize>) -> Out;
+    fn wait(&mut self, l: usize) -> Out;
+    fn counts(&mut self) -> Out;
+    fn fin(&mut self);
+}
+#[derive(Clone, Debug)]
+pub struct EvCfg {
+    max_notifiers: usize,
+    max_listeners: usize,
+    id_max: usize,
+}
+pub struct REv {
+    node: Option<Node<S>>,
+    svc: Option<iceoryx2::service::port_factory::event::PortFactory<S>>,
+    nots: HashMap<usize, Notifier<S>>,
+    liss: HashMap<usize, Listener<S>>,
+}
+impl REv {
+    fn make(prefix: &str, name: &str, cfg: &EvCfg, create: bool) -> Result<Box<dyn EvSide>, Out> {
+        let node = rust_node(prefix)?;
+        let sn = ServiceName::new(name).unwrap();
+        let b = node.service_builder(&sn).event();
+        let svc = if create {
+            b.max_notifiers(cfg.max_notifiers).max_listeners(cfg.max_listeners).event_id_max_value(cfg.id_max).create().map_err(|e| Out::R("EventCreateError", format!("{e:?}")))?
+        } else {
+            b.open().map_err(|e| Out::R("EventOpenError", format!("{e:?}")))?
+        };
+        Ok(Box::new(REv { node: Some(node), svc: Some(svc), nots: HashMap::new(), liss: HashMap::new() }))
+    }
+}
+fn show_events(mut v: Vec<(usize, u64)>, n: u64) -> String {
+    v.sort();
+    let s: Vec<String> = v.iter().map(|(i, c)| format!("{i}x{c}")).collect();
+    format!("{n}[{}]", s.join(","))
+}
+impl EvSide for REv {
+    fn cnot(&mut self, n: usize, default_id: Option<usize>) -> Out {
+        if self.nots.contains_key(&n) { return Out::Skip("dup") }
+        let mut b = self.svc.as_ref().unwrap().notifier_builder();
+        if let Some(i) = default_id { b = b.default_event_id(EventId::new(i)) }
+        match b.create() { Ok(x) => { self.nots.insert(n, x); Out::Ok("ok".into()) } Err(e) => Out::R("NotifierCreateError", format!("{e:?}")) }
+    }
+    fn dnot(&mut self, n: usize) -> Out {
+        match self.nots.remove(&n) { Some(x) => { drop(x); Out::Ok("ok".into()) } None => Out::Skip("none") }
+    }
+    fn clis(&mut self, l: usize) -> Out {
+        if self.liss.contains_key(&l) { return Out::Skip("dup") }
+        match self.svc.as_ref().unwrap().listener_builder().create() { Ok(x) => { self.liss.insert(l, x); Out::Ok("ok".into()) } Err(e) => Out::R("ListenerCreateError", format!("{e:?}")) }
+    }
+    fn dlis(&mut self, l: usize) -> Out {
+        match self.liss.remove(&l) { Some(x) => { drop(x); Out::Ok("ok".into()) } None => Out::Skip("none") }
+    }
+    fn notify(&mut self, n: usize, id: Option<usize>) -> Out {
+        let Some(x) = self.nots.get(&n) else { return Out::Skip("none") };
+        let r = match id { Some(i) => x.notify_with_custom_event_id(EventId::new(i)), None => x.notify() };
+        match r { Ok(k) => Out::Ok(format!("ok:{k}")), Err(e) => Out::R("NotifierNotifyError", format!("{e:?}")) }
+    }
+    fn wait(&mut self, l: usize) -> Out {
+        let Some(x) = self.liss.get(&l) else { return Out::Skip("none") };
+        let mut v = vec![];
+        match x.try_wait(|e| v.push((e.id.as_value(), e.count))) { Ok(n) => Out::Ok(show_events(v, n)), Err(e) => Out::R("ListenerWaitError", format!("{e:?}")) }
+    }
+    fn counts(&mut self) -> Out {
+        let d = self.svc.as_ref().unwrap().dynamic_config();
+        Out::Ok(format!("n{}l{}", d.number_of_notifiers(), d.number_of_listeners()))
+    }
+    fn fin(&mut self) {
+        self.nots.clear();
+        self.liss.clear();
+        self.svc = None;
+        self.node = None;
+    }
+}
+pub struct CEv {
+    node: CNode,
+    svc: iox2_port_factory_event_h,
+    nots: HashMap<usize, iox2_notifier_h>,
+    liss: HashMap<usize, iox2_listener_h>,
+}
+extern "C" fn collect_event(id: *const iox2_event_id_t, count: u64, ctx: iox2_callback_context) {
+    let v = unsafe { &mut *(ctx as *mut Vec<(usize, u64)>) };
+    v.push((unsafe { (*id).value }, count));
+}
+impl CEv {
+    fn make(prefix: &str, name: &str, cfg: &EvCfg, create: bool) -> Result<Box<dyn EvSide>, Out> {
+        let mut node = CNode::new(prefix)?;
+        unsafe {
+            let b = iox2_service_builder_event(node.service_builder(name));
+            let mut svc: iox2_port_factory_event_h = null_mut();
+            let rc = if create {
+                iox2_service_builder_event_set_max_notifiers(&b, cfg.max_notifiers);
+                iox2_service_builder_event_set_max_listeners(&b, cfg.max_listeners);
+                iox2_service_builder_event_set_event_id_max_value(&b, cfg.id_max);
+                iox2_service_builder_event_create(b, null_mut(), &mut svc)
+            } else {
+                iox2_service_builder_event_open(b, null_mut(), &mut svc)
+            };
+            if rc != IOX2_OK {
+                node.fin();
+                return Err(Out::C("iox2_event_open_or_create_error_e", rc));
+            }
+            Ok(Box::new(CEv { node, svc, nots: HashMap::new(), liss: HashMap::new() }))
+        }
+    }
+}
+impl EvSide for CEv {
+    fn cnot(&mut self, n: usize, default_id: Option<usize>) -> Out {
+        if self.nots.contains_key(&n) { return Out::Skip("dup") }
+        unsafe {
+            let b = iox2_port_factory_event_notifier_builder(&self.svc, null_mut());
+            if let Some(i) = default_id {
+                let id = iox2_event_id_t { value: i };
+                iox2_port_factory_notifier_builder_set_default_event_id(&b, &id);
+            }
+            let mut h: iox2_notifier_h = null_mut();
+            let rc = iox2_port_factory_notifier_builder_create(b, null_mut(), &mut h);
+            if rc != IOX2_OK { return Out::C("iox2_notifier_create_error_e", rc) }
+            self.nots.insert(n, h);
+            Out::Ok("ok".into())
+        }
+    }
+    fn dnot(&mut self, n: usize) -> Out {
+        match self.nots.remove(&n) { Some(h) => { unsafe { iox2_notifier_drop(h) }; Out::Ok("ok".into()) } None => Out::Skip("none") }
+    }
+    fn clis(&mut self, l: usize) -> Out {
+        if self.liss.contains_key(&l) { return Out::Skip("dup") }
+        unsafe {
+            let b = iox2_port_factory_event_listener_builder(&self.svc, null_mut());
+            let mut h: iox2_listener_h = null_mut();
+            let rc = iox2_port_factory_listener_builder_create(b, null_mut(), &mut h);
+            if rc != IOX2_OK { return Out::C("iox2_listener_create_error_e", rc) }
+            self.liss.insert(l, h);
+            Out::Ok("ok".into())
+        }
+    }
+    fn dlis(&mut self, l: usize) -> Out {
+        match self.liss.remove(&l) { Some(h) => { unsafe { iox2_listener_drop(h) }; Out::Ok("ok".into()) } None => Out::Skip("none") }
+    }
+    fn notify(&mut self, n: usize, id: Option<usize>) -> Out {
+        let Some(h) = self.nots.get(&n) else { return Out::Skip("none") };
+        unsafe {
+            let mut k: usize = 0;
+            let rc = match id {
+                Some(i) => { let e = iox2_event_id_t { value: i }; iox2_notifier_notify_with_custom_event_id(h, &e, &mut k) }
+                None => iox2_notifier_notify(h, &mut k),
+            };
+            if rc != IOX2_OK { return Out::C("iox2_notifier_notify_error_e", rc) }
+            Out::Ok(format!("ok:{k}"))
+        }
+    }
+    fn wait(&mut self, l: usize) -> Out {
+        let Some(h) = self.liss.get(&l) else { return Out::Skip("none") };
+        unsafe {
+            let mut v: Vec<(usize, u64)> = vec![];
+            let mut n: u64 = 0;
+            let rc = iox2_listener_try_wait(h, &mut n, collect_event, &mut v as *mut _ as *mut c_void);
+            if rc != IOX2_OK { return Out::C("iox2_listener_wait_error_e", rc) }
+            Out::Ok(show_events(v, n))
+        }
+    }
+    fn counts(&mut self) -> Out {
+        unsafe { Out::Ok(format!("n{}l{}", iox2_port_factory_event_dynamic_config_number_of_notifiers(&self.svc), iox2_port_factory_event_dynamic_config_number_of_listeners(&self.svc))) }
+    }
+    fn fin(&mut self) {
+        unsafe {
+            for (_, h) in self.nots.drain() { iox2_notifier_drop(h) }
+            for (_, h) in self.liss.drain() { iox2_listener_drop(h) }
+            if !self.svc.is_null() { iox2_port_factory_event_drop(self.svc); self.svc = null_mut() }
+        }
+        self.node.fin();
+    }
+}
+
+// ---------------------------------------------------------------------------------------------
+// worlds
+
+/// a world: the side that owns the sending ports and the side that owns the receiving ports
+/// (the same object in the pure worlds)
+struct PsWorld {
+    tx: Option<Box<dyn PsSide>>,
+    rx: Option<Box<dyn PsSide>>,
+    err: Option<Out>,
+}
+impl PsWorld {
+    fn tx(&mut self) -> &mut Box<dyn PsSide> { self.tx.as_mut().unwrap() }
+    fn rx(&mut self) -> &mut Box<dyn PsSide> { if self.rx.is_some() { self.rx.as_mut().unwrap() } else { self.tx.as_mut().unwrap() } }
+    fn fin(&mut self) {
+        if let Some(x) = self.rx.as_mut() { x.fin() }
+        if let Some(x) = self.tx.as_mut() { x.fin() }
+        self.rx = None;
+        self.tx = None;
+    }
+}
+struct EvWorld {
+    tx: Option<Box<dyn EvSide>>,
+    rx: Option<Box<dyn EvSide>>,
+    err: Option<Out>,
+}
+impl EvWorld {
+    fn tx(&mut self) -> &mut Box<dyn EvSide> { self.tx.as_mut().unwrap() }
+    fn rx(&mut self) -> &mut Box<dyn EvSide> { if self.rx.is_some() { self.rx.as_mut().unwrap() } else { self.tx.as_mut().unwrap() } }
+    fn fin(&mut self) {
+        if let Some(x) = self.rx.as_mut() { x.fin() }
+        if let Some(x) = self.tx.as_mut() { x.fin() }
+        self.rx = None;
+        self.tx = None;
+    }
+}
+
+enum Case {
+    None,
+    Ps(Vec<PsWorld>),
+    Ev(Vec<EvWorld>),
+    Names,
+}
+pub struct FfiComp {
+    case: Case,
+    prefix: String,
+    names: Vec<String>,
+}
 impl FfiComp {
     pub fn new() -> Self {
-        FfiComp
+        FfiComp { case: Case::None, prefix: String::new(), names: vec![] }
+    }
+    fn finish_case(&mut self) -> Vec<String> {
+        match &mut self.case {
+            Case::Ps(ws) => for w in ws.iter_mut() { w.fin() },
+            Case::Ev(ws) => for w in ws.iter_mut() { w.fin() },
+            _ => {}
+        }
+        self.case = Case::None;
+        if self.prefix.is_empty() { return vec![] }
+        let left = leftovers(&self.prefix);
+        self.prefix.clear();
+        left
     }
 }
+impl Drop for FfiComp {
+    fn drop(&mut self) {
+        let _ = self.finish_case();
+    }
+}
+
+/// files of this domain that still exist: service + node directories, /dev/shm.  The per-domain
+/// `…global_mgmt` segment is shared by all nodes of a domain and stays by design; it is removed here.
+fn leftovers(prefix: &str) -> Vec<String> {
+    let cfg = iceoryx2::config::Config::global_config();
+    let root = format!("{}", cfg.global.root_path());
+    let mut dirs = vec![format!("{}", cfg.global.service_dir()), format!("{}", cfg.global.node_dir()), "/dev/shm".to_string(), root];
+    dirs.dedup();
+    let mut left = vec![];
+    for d in dirs {
+        let Ok(rd) = std::fs::read_dir(&d) else { continue };
+        for e in rd.flatten() {
+            let n = e.file_name().to_string_lossy().to_string();
+            if n.starts_with(prefix) {
+                if n.ends_with(".global_mgmt") {
+                    let _ = std::fs::remove_file(e.path());
+                    continue;
+                }
+                left.push(format!("{d}/{n}").replace("//", "/"));
+                if e.path().is_dir() { let _ = std::fs::remove_dir_all(e.path()); } else { let _ = std::fs::remove_file(e.path()); }
+            }
+        }
+    }
+    left.sort();
+    left
+}
+
+fn n(s: &str) -> usize { s.parse().unwrap() }
+fn opt(s: &str) -> Option<usize> { if s == "-" { None } else { Some(n(s)) } }
+
+const WORLDS: [&str; 4] = ["r", "c", "rc", "cr"];
+
+fn join(outs: Vec<Out>) -> String {
+    let shown: Vec<(String, String)> = outs.iter().map(canon).collect();
+    for (i, (_, c)) in shown.iter().enumerate().skip(1) {
+        if *c != shown[0].1 {
+            oracle_fail(format!("world {} differs from the Rust world: {} vs {}", WORLDS[i], c, shown[0].1));
+        }
+    }
+    for (i, (_, c)) in shown.iter().enumerate() {
+        if c.contains("no-C-code") || c.contains("not-in-table") || c.contains("#") && c.starts_with("err:") {
+            oracle_fail(format!("world {}: error identity cannot be expressed: {c}", WORLDS[i]));
+        }
+    }
+    shown.iter().enumerate().map(|(i, (s, _))| format!("{}={}", WORLDS[i], s)).collect::<Vec<_>>().join(" ")
+}
+
+// --- printable names: every *_string function against the translated table ------------------
+macro_rules! sfn {
+    ($($e:ident => $f:ident),* $(,)?) => {
+        fn string_fns() -> Vec<(&'static str, &'static str, Box<dyn Fn(i32) -> String>)> {
+            vec![$( (stringify!($e), stringify!($f), {
+                const _: () = assert!(size_of::<$e>() == size_of::<i32>());
+                Box::new(|c: i32| unsafe {
+                    let p = $f(std::mem::transmute::<i32, $e>(c));
+                    CStr::from_ptr(p).to_string_lossy().to_string()
+                }) as Box<dyn Fn(i32) -> String> }) ),*]
+        }
+    };
+}
+sfn! {
+    iox2_attribute_definition_error_e => iox2_attribute_definition_error_create_error_string,
+    iox2_attribute_verification_error_e => iox2_attribute_verification_error_create_error_string,
+    iox2_blackboard_create_error_e => iox2_blackboard_create_error_string,
+    iox2_blackboard_open_error_e => iox2_blackboard_open_error_string,
+    iox2_client_create_error_e => iox2_client_create_error_string,
+    iox2_config_creation_error_e => iox2_config_creation_error_string,
+    iox2_connection_failure_e => iox2_connection_failure_string,
+    iox2_entry_handle_error_e => iox2_entry_handle_error_string,
+    iox2_entry_handle_mut_error_e => iox2_entry_handle_mut_error_string,
+    iox2_event_open_or_create_error_e => iox2_event_open_or_create_error_string,
+    iox2_listener_create_error_e => iox2_listener_create_error_string,
+    iox2_listener_wait_error_e => iox2_listener_wait_error_string,
+    iox2_loan_error_e => iox2_loan_error_string,
+    iox2_node_creation_failure_e => iox2_node_creation_failure_string,
+    iox2_node_list_failure_e => iox2_node_list_failure_string,
+    iox2_node_wait_failure_e => iox2_node_wait_failure_string,
+    iox2_notifier_create_error_e => iox2_notifier_create_error_string,
+    iox2_notifier_notify_error_e => iox2_notifier_notify_error_string,
+    iox2_pub_sub_open_or_create_error_e => iox2_pub_sub_open_or_create_error_string,
+    iox2_publisher_create_error_e => iox2_publisher_create_error_string,
+    iox2_reader_create_error_e => iox2_reader_create_error_string,
+    iox2_receive_error_e => iox2_receive_error_string,
+    iox2_request_response_open_or_create_error_e => iox2_request_response_open_or_create_error_string,
+    iox2_request_send_error_e => iox2_request_send_error_string,
+    iox2_semantic_string_error_e => iox2_semantic_string_error_string,
+    iox2_send_error_e => iox2_send_error_string,
+    iox2_server_create_error_e => iox2_server_create_error_string,
+    iox2_service_details_error_e => iox2_service_details_error_string,
+    iox2_service_list_error_e => iox2_service_list_error_string,
+    iox2_subscriber_create_error_e => iox2_subscriber_create_error_string,
+    iox2_waitset_attachment_error_e => iox2_waitset_attachment_error_string,
+    iox2_waitset_create_error_e => iox2_waitset_create_error_string,
+    iox2_waitset_run_error_e => iox2_waitset_run_error_string,
+    iox2_writer_create_error_e => iox2_writer_create_error_string,
+}
+
+fn check_names(which: &str) -> String {
+    let fns = string_fns();
+    TABLE.with(|t| {
+        if which == "coverage" {
+            // every string function the translator found is exercised, and vice versa
+            let mine: HashSet<&str> = fns.iter().map(|f| f.0).collect();
+            let mut missing: Vec<String> = t.string_fn.keys().filter(|e| !mine.contains(e.as_str())).cloned().collect();
+            for f in &fns {
+                match t.string_fn.get(f.0) {
+                    Some(name) if name == f.1 => {}
+                    other => missing.push(format!("{}:{:?}!={}", f.0, other, f.1)),
+                }
+            }
+            if !missing.is_empty() { oracle_fail(format!("string functions of the table and of the harness differ: {}", missing.join(","))) }
+            return format!("fns={} table={}", fns.len(), t.string_fn.len());
+        }
+        let Some(f) = fns.iter().find(|f| f.0 == which) else { return "unknown-enum".to_string() };
+        let Some(vs) = t.variants.get(which) else { return "not-in-table".to_string() };
+        let mut bad = vec![];
+        for (name, code, printable) in vs {
+            let got = (f.2)(*code);
+            if got != *printable { bad.push(format!("{name}({code}): binary says {got:?}, table says {printable:?}")) }
+        }
+        if !bad.is_empty() { oracle_fail(format!("printable names of {which} differ from the translated table: {}", bad.join("; "))) }
+        format!("ok:{}", vs.len())
+    })
+}
+
 impl Comp for FfiComp {
-    fn exec(&mut self, _t: &[&str]) -> String {
-        "unimplemented".into()
+    fn exec(&mut self, t: &[&str]) -> String {
+        if t[0] == "new" {
+            let left = self.finish_case();
+            if !left.is_empty() { oracle_fail(format!("previous case left files behind: {}", left.join(","))) }
+            let k = CASE_COUNTER.fetch_add(1, std::sync::atomic::Ordering::Relaxed);
+            self.prefix = format!("vf18x{}x{}_", std::process::id(), k);
+            self.names = WORLDS.iter().map(|w| format!("c18/{}/{k}/{w}", std::process::id())).collect();
+            let prefix = self.prefix.clone();
+            match t[1] {
+                "names" => { self.case = Case::Names; self.prefix.clear(); return check_names("coverage") }
+                "ps" => {
+                    // new ps <fixed|slice> <type> <hdr> <max pubs> <max subs> <buffer> <history> <borrow> <overflow>
+                    let cfg = PsCfg { slice: t[2] == "slice", ty: n(t[3]), hdr: n(t[4]), max_pubs: n(t[5]), max_subs: n(t[6]), buf: n(t[7]), hist: n(t[8]), borrow: n(t[9]), overflow: t[10] == "1" };
+                    let mut ws: Vec<PsWorld> = vec![];
+                    // r: reference.  The type details the Rust service ends up with are what the C API is told.
+                    let r = mk_r_ps(&prefix, &self.names[0], &cfg, true);
+                    let details = match &r { Ok(s) => Some(s.details()), Err(_) => None };
+                    let (pay, uh) = match details {
+                        Some(d) => d,
+                        None => {
+                            // the Rust world refused the configuration: ask a throw-away default service for the details
+                            let mut probe_cfg = cfg.clone();
+                            probe_cfg.hist = 0; probe_cfg.buf = probe_cfg.buf.max(1);
+                            let mut p = mk_r_ps(&prefix, &format!("{}/probe", self.names[0]), &PsCfg { max_pubs: 1, max_subs: 1, buf: 1, hist: 0, borrow: 1, overflow: true, ..probe_cfg }, true).ok().expect("probe service");
+                            let d = p.details();
+                            p.fin();
+                            d
+                        }
+                    };
+                    ws.push(match r { Ok(s) => PsWorld { tx: Some(s), rx: None, err: None }, Err(e) => PsWorld { tx: None, rx: None, err: Some(e) } });
+                    ws.push(match CPs::make(&prefix, &self.names[1], &cfg, true, &pay, &uh) { Ok(s) => PsWorld { tx: Some(s), rx: None, err: None }, Err(e) => PsWorld { tx: None, rx: None, err: Some(e) } });
+                    ws.push(match mk_r_ps(&prefix, &self.names[2], &cfg, true) {
+                        Ok(mut s) => match CPs::make(&prefix, &self.names[2], &cfg, false, &pay, &uh) { Ok(o) => PsWorld { tx: Some(s), rx: Some(o), err: None }, Err(e) => { s.fin(); PsWorld { tx: None, rx: None, err: Some(Out::Ok(format!("open-failed:{}", canon(&e).0))) } } },
+                        Err(e) => PsWorld { tx: None, rx: None, err: Some(e) } });
+                    ws.push(match CPs::make(&prefix, &self.names[3], &cfg, true, &pay, &uh) {
+                        Ok(mut s) => match mk_r_ps(&prefix, &self.names[3], &cfg, false) { Ok(o) => PsWorld { tx: Some(s), rx: Some(o), err: None }, Err(e) => { s.fin(); PsWorld { tx: None, rx: None, err: Some(Out::Ok(format!("open-failed:{}", canon(&e).0))) } } },
+                        Err(e) => PsWorld { tx: None, rx: None, err: Some(e) } });
+                    let outs: Vec<Out> = ws.iter().map(|w| w.err.clone().unwrap_or(Out::Ok("ok".into()))).collect();
+                    let dead = ws.iter().any(|w| w.err.is_some());
+                    let s = join(outs);
+                    if dead { for w in ws.iter_mut() { w.fin() } self.case = Case::None } else { self.case = Case::Ps(ws) }
+                    return format!("{s} T={}:{}:{}{}", pay.name, pay.size, pay.align, if pay.dynamic { ":dyn" } else { "" });
+                }
+                "ev" => {
+                    // new ev <max notifiers> <max listeners> <event id max>
+                    let cfg = EvCfg { max_notifiers: n(t[2]), max_listeners: n(t[3]), id_max: n(t[4]) };
+                    let mut ws: Vec<EvWorld> = vec![];
+                    let one = |r: Result<Box<dyn EvSide>, Out>| match r { Ok(s) => EvWorld { tx: Some(s), rx: None, err: None }, Err(e) => EvWorld { tx: None, rx: None, err: Some(e) } };
+                    ws.push(one(REv::make(&prefix, &self.names[0], &cfg, true)));
+                    ws.push(one(CEv::make(&prefix, &self.names[1], &cfg, true)));
+                    ws.push(match REv::make(&prefix, &self.names[2], &cfg, true) {
+                        Ok(mut s) => match CEv::make(&prefix, &self.names[2], &cfg, false) { Ok(o) => EvWorld { tx: Some(s), rx: Some(o), err: None }, Err(e) => { s.fin(); EvWorld { tx: None, rx: None, err: Some(Out::Ok(format!("open-failed:{}", canon(&e).0))) } } },
+                        Err(e) => EvWorld { tx: None, rx: None, err: Some(e) } });
+                    ws.push(match CEv::make(&prefix, &self.names[3], &cfg, true) {
+                        Ok(mut s) => match REv::make(&prefix, &self.names[3], &cfg, false) { Ok(o) => EvWorld { tx: Some(s), rx: Some(o), err: None }, Err(e) => { s.fin(); EvWorld { tx: None, rx: None, err: Some(Out::Ok(format!("open-failed:{}", canon(&e).0))) } } },
+                        Err(e) => EvWorld { tx: None, rx: None, err: Some(e) } });
+                    let outs: Vec<Out> = ws.iter().map(|w| w.err.clone().unwrap_or(Out::Ok("ok".into()))).collect();
+                    let dead = ws.iter().any(|w| w.err.is_some());
+                    let s = join(outs);
+                    if dead { for w in ws.iter_mut() { w.fin() } self.case = Case::None } else { self.case = Case::Ev(ws) }
+                    return s;
+                }
+                _ => panic!("bad case kind"),
+            }
+        }
+        if t[0] == "fin" {
+            let had = !matches!(self.case, Case::None);
+            let left = self.finish_case();
+            if !left.is_empty() { oracle_fail(format!("files left after dropping every handle: {}", left.join(","))) }
+            return if had { format!("left={}", left.len()) } else { "no-world".into() };
+        }
+        match &mut self.case {
+            Case::None => "no-world".into(),
+            Case::Names => check_names(t[1]),
+            Case::Ps(ws) => {
+                let outs: Vec<Out> = ws.iter_mut().map(|w| match t[0] {
+                    "cpub" => w.tx().cpub(n(t[1]), n(t[2]), n(t[3])),
+                    "dpub" => w.tx().dpub(n(t[1])),
+                    "csub" => w.rx().csub(n(t[1]), opt(t[2])),
+                    "dsub" => w.rx().dsub(n(t[1])),
+                    "loan" => w.tx().loan(n(t[1]), n(t[2]), n(t[3])),
+                    "send" => w.tx().send(n(t[1]), n(t[2]), t[3].parse().unwrap()),
+                    "dloan" => w.tx().dloan(n(t[1]), n(t[2])),
+                    "scopy" => w.tx().scopy(n(t[1]), t[2].parse().unwrap(), n(t[3])),
+                    "recv" => w.rx().recv(n(t[1])),
+                    "dsample" => w.rx().dsample(n(t[1]), n(t[2])),
+                    "has" => w.rx().has(n(t[1])),
+                    "upd" => w.tx().upd(n(t[1])),
+                    "counts" => { let a = w.tx().counts(); let b = w.rx().counts(); Out::Ok(format!("{}|{}", canon(&a).0, canon(&b).0)) }
+                    _ => panic!("bad op"),
+                }).collect();
+                join(outs)
+            }
+            Case::Ev(ws) => {
+                let outs: Vec<Out> = ws.iter_mut().map(|w| match t[0] {
+                    "cnot" => w.tx().cnot(n(t[1]), opt(t[2])),
+                    "dnot" => w.tx().dnot(n(t[1])),
+                    "clis" => w.rx().clis(n(t[1])),
+                    "dlis" => w.rx().dlis(n(t[1])),
+                    "notify" => w.tx().notify(n(t[1]), opt(t[2])),
+                    "wait" => w.rx().wait(n(t[1])),
+                    "counts" => { let a = w.tx().counts(); let b = w.rx().counts(); Out::Ok(format!("{}|{}", canon(&a).0, canon(&b).0)) }
+                    _ => panic!("bad op"),
+                }).collect();
+                join(outs)
+            }
+        }
     }
 }
-pub fn generate(_a: &Args) -> Vec<Vec<String>> {
-    vec![]
+
+// ---------------------------------------------------------------------------------------------
+// generators
+
+fn gen_ps(rng: &mut Rng, len: u64, slice: bool) -> Vec<String> {
+    let ty = rng.below(N_TYPES as u64);
+    let hdr = rng.below(N_HDRS as u64);
+    let (mp, ms) = (rng.range(1, 3), rng.range(1, 3));
+    let buf = rng.range(1, 4);
+    let ov = rng.below(2);
+    // without overflow the builder wants history <= buffer; sometimes ask for more (create error in every world)
+    let hist = if rng.chance(8) { buf + 1 } else { rng.range(0, buf) };
+    let borrow = rng.range(1, 3);
+    let mut lines = vec![format!("new ps {} {ty} {hdr} {mp} {ms} {buf} {hist} {borrow} {ov}", if slice { "slice" } else { "fixed" })];
+    let (mut np, mut ns, mut nl) = (0usize, 0usize, 0usize);
+    let (mut pubs, mut subs): (Vec<(usize, u64)>, Vec<usize>) = (vec![], vec![]);
+    let mut loans: Vec<(usize, usize)> = vec![];
+    let mut held: HashMap<usize, usize> = HashMap::new();
+    let mut seed = rng.below(1000);
+    let wts: [u64; 13] = [9, 9, 3, 3, 24, 5, 6, 22, 9, 3, 2, 3, 2];
+    let total: u64 = wts.iter().sum();
+    for _ in 0..rng.range(4, len) {
+        let mut c = rng.below(total);
+        let mut k = 0;
+        while c >= wts[k] { c -= wts[k]; k += 1 }
+        if pubs.is_empty() && rng.chance(50) { k = 0 }
+        if subs.is_empty() && rng.chance(50) { k = 1 }
+        seed += 1;
+        let l = match k {
+            0 => {
+                let p = np; np += 1;
+                let max_len = rng.range(1, 6);
+                pubs.push((p, max_len));
+                format!("cpub {p} {} {max_len}", rng.range(1, 3))
+            }
+            1 => {
+                let s = ns; ns += 1; subs.push(s); held.insert(s, 0);
+                if rng.chance(50) { format!("csub {s} -") } else { format!("csub {s} {}", rng.range(1, buf + 1)) }
+            }
+            2 if !pubs.is_empty() => {
+                let i = rng.below(pubs.len() as u64) as usize; let (p, _) = pubs.remove(i);
+                // legal sequences only: give the publisher's loans back first (same in every world)
+                let mine: Vec<(usize, usize)> = loans.iter().filter(|x| x.0 == p).cloned().collect();
+                for (pp, ll) in mine { lines.push(format!("dloan {pp} {ll}")); }
+                loans.retain(|x| x.0 != p);
+                format!("dpub {p}")
+            }
+            3 if !subs.is_empty() => {
+                let i = rng.below(subs.len() as u64) as usize; let s = subs.remove(i);
+                // samples are released before their subscriber (finding D16 belongs to C02, not to this check)
+                for _ in 0..held.remove(&s).unwrap_or(0) { lines.push(format!("dsample {s} 0")); }
+                format!("dsub {s}")
+            }
+            4 if !pubs.is_empty() => {
+                let (p, max_len) = *rng.pick(&pubs);
+                let l = nl; nl += 1;
+                // slice length: inside the limit, sometimes beyond it (ExceedsMaxLoanSize), sometimes 0
+                let nn = if !slice { 1 } else if rng.chance(8) { max_len + rng.range(1, 3) } else if rng.chance(5) { 0 } else { rng.range(1, max_len) };
+                lines.push(format!("loan {p} {l} {nn}"));
+                if rng.chance(80) { format!("send {p} {l} {seed}") } else { loans.push((p, l)); continue }
+            }
+            5 if !loans.is_empty() => {
+                let i = rng.below(loans.len() as u64) as usize; let (p, l) = loans.remove(i);
+                if rng.chance(50) { format!("send {p} {l} {seed}") } else { format!("dloan {p} {l}") }
+            }
+            6 if !pubs.is_empty() => {
+                let (p, max_len) = *rng.pick(&pubs);
+                let nn = if !slice { 1 } else if rng.chance(10) { max_len + 1 } else { rng.range(1, max_len) };
+                format!("scopy {p} {seed} {nn}")
+            }
+            7 if !subs.is_empty() => {
+                let s = *rng.pick(&subs);
+                *held.get_mut(&s).unwrap() += 1;
+                format!("recv {s}")
+            }
+            8 if !subs.is_empty() => {
+                let s = *rng.pick(&subs);
+                let h = held.get_mut(&s).unwrap();
+                let k = rng.below(*h as u64 + 1);
+                if *h > 0 && (k as usize) < *h { *h -= 1 }
+                format!("dsample {s} {k}")
+            }
+            9 if !subs.is_empty() => format!("has {}", rng.pick(&subs)),
+            10 if !pubs.is_empty() => format!("upd {}", rng.pick(&pubs).0),
+            11 => "counts".to_string(),
+            _ => continue,
+        };
+        lines.push(l);
+    }
+    lines.push("fin".into());
+    lines
+}
+
+fn gen_ev(rng: &mut Rng, len: u64) -> Vec<String> {
+    let (mn, ml) = (rng.range(1, 3), rng.range(1, 3));
+    let id_max = rng.range(0, 12);
+    let mut lines = vec![format!("new ev {mn} {ml} {id_max}")];
+    let (mut nn, mut nl) = (0usize, 0usize);
+    let (mut nots, mut liss): (Vec<usize>, Vec<usize>) = (vec![], vec![]);
+    let wts: [u64; 7] = [10, 10, 3, 3, 40, 30, 4];
+    let total: u64 = wts.iter().sum();
+    for _ in 0..rng.range(4, len) {
+        let mut c = rng.below(total);
+        let mut k = 0;
+        while c >= wts[k] { c -= wts[k]; k += 1 }
+        if nots.is_empty() && rng.chance(50) { k = 0 }
+        if liss.is_empty() && rng.chance(50) { k = 1 }
+        let l = match k {
+            0 => { let x = nn; nn += 1; nots.push(x); if rng.chance(50) { format!("cnot {x} -") } else { format!("cnot {x} {}", rng.range(0, id_max + 2)) } }
+            1 => { let x = nl; nl += 1; liss.push(x); format!("clis {x}") }
+            2 if !nots.is_empty() => { let i = rng.below(nots.len() as u64) as usize; format!("dnot {}", nots.remove(i)) }
+            3 if !liss.is_empty() => { let i = rng.below(liss.len() as u64) as usize; format!("dlis {}", liss.remove(i)) }
+            4 if !nots.is_empty() => { let x = *rng.pick(&nots); if rng.chance(40) { format!("notify {x} -") } else { format!("notify {x} {}", rng.range(0, id_max + 2)) } }
+            5 if !liss.is_empty() => format!("wait {}", rng.pick(&liss)),
+            6 => "counts".to_string(),
+            _ => continue,
+        };
+        lines.push(l);
+    }
+    lines.push("fin".into());
+    lines
+}
+
+pub fn generate(a: &Args) -> Vec<Vec<String>> {
+    let mut rng = Rng::new(a.seed);
+    let mut cases = vec![];
+    let kind = a.rest.first().map(|s| s.as_str()).unwrap_or("mix");
+    if kind == "names" {
+        let mut lines = vec!["new names".to_string()];
+        let mut es: Vec<String> = TABLE.with(|t| t.string_fn.keys().cloned().collect());
+        es.sort();
+        for e in es { lines.push(format!("names {e}")) }
+        return vec![lines];
+    }
+    if a.exhaustive > 0 {
+        return exhaustive(a, kind);
+    }
+    for i in 0..a.cases {
+        let k = match kind { "fixed" => 0, "slice" => 1, "ev" => 2, _ => i % 3 };
+        cases.push(match k { 0 => gen_ps(&mut rng, a.len, false), 1 => gen_ps(&mut rng, a.len, true), _ => gen_ev(&mut rng, a.len) });
+    }
+    cases
+}
+
+/// every sequence of length L over a small alphabet, after a fixed prefix, for every payload type
+/// (pub-sub) / for two event configurations
+fn exhaustive(a: &Args, kind: &str) -> Vec<Vec<String>> {
+    let mut cases = vec![];
+    if kind == "ev" {
+        let alphabet: Vec<String> = ["notify 0 -", "notify 0 1", "notify 0 9", "wait 0", "cnot", "clis", "dnot 0", "dlis 0"].iter().map(|x| x.to_string()).collect();
+        for cfg in ["2 2 3", "1 1 9"] {
+            enumerate_seqs(&alphabet, a.exhaustive as usize, &mut |seq| {
+                let mut lines = vec![format!("new ev {cfg}"), "cnot 0 2".to_string(), "clis 0".to_string()];
+                let (mut nn, mut nl) = (1, 1);
+                for &i in seq {
+                    match alphabet[i].as_str() {
+                        "cnot" => { lines.push(format!("cnot {nn} -")); nn += 1 }
+                        "clis" => { lines.push(format!("clis {nl}")); nl += 1 }
+                        x => lines.push(x.to_string()),
+                    }
+                }
+                lines.push("fin".into());
+                cases.push(lines);
+            });
+        }
+        return cases;
+    }
+    let alphabet: Vec<String> = ["send", "loan", "scopy", "recv 0", "dsample 0 0", "cpub", "csub", "has 0"].iter().map(|x| x.to_string()).collect();
+    for slice in [false, true] {
+        for ty in 0..N_TYPES {
+            let hdr = ty % N_HDRS;
+            enumerate_seqs(&alphabet, a.exhaustive as usize, &mut |seq| {
+                let mut lines = vec![format!("new ps {} {ty} {hdr} 2 2 2 1 1 {}", if slice { "slice" } else { "fixed" }, ty % 2), "cpub 0 1 3".to_string(), "csub 0 -".to_string()];
+                let (mut np, mut ns, mut nl, mut seed) = (1, 1, 0, 100 + ty as u64);
+                for &i in seq {
+                    seed += 1;
+                    match alphabet[i].as_str() {
+                        "send" => { lines.push(format!("loan 0 {nl} {}", if slice { 1 + nl % 3 } else { 1 })); lines.push(format!("send 0 {nl} {seed}")); nl += 1 }
+                        "loan" => { lines.push(format!("loan 0 {nl} {}", if slice { 4 - nl % 2 } else { 1 })); nl += 1 }
+                        "scopy" => lines.push(format!("scopy 0 {seed} {}", if slice { 2 } else { 1 })),
+                        "cpub" => { lines.push(format!("cpub {np} 2 2")); np += 1 }
+                        "csub" => { lines.push(format!("csub {ns} 1")); ns += 1 }
+                        x => lines.push(x.to_string()),
+                    }
+                }
+                lines.push("fin".into());
+                cases.push(lines);
+            });
+        }
+    }
+    cases
 }
